@@ -10,6 +10,6 @@ CHECKS["C07"] = dict(
           "tap + the actor's own signatures), by >= q distinct replicas that really signed a block of view >= v or by >= q that "
           "really signed a timeout for a view >= v (a necessary condition, so it cannot raise a false alarm); ViewChangeEvents "
           "are exactly v+1, v+2, ... one per increment. Non-trivial = an honest replica received a fabricated certificate from "
-          "the actor and made at least one legitimate view step; distinct = config+schedule. Strategy runs (TestC07StrategyPace): the same monitor after every view of ALL strategies of two strategic views of a Byzantine replica that leads every view (see C01; 16,200 runs)."),
+          "the actor and made at least one legitimate view step; distinct = config+schedule. Strategy runs (TestC07StrategyPace): the same monitor after every view of ALL strategies of two strategic views of a Byzantine replica that leads every view (see C01; 16,200 runs). Rogue key (TestC07RogueKey): a bls12 cluster whose Byzantine replica registered a rogue public key presents a TC / QC signed by itself alone but naming two honest replicas, 1..3 times to every honest replica in new-view or timeout messages; the monitor's evidence rules apply after every delivery."),
     assumptions=["the simulator edges, the signing tap and the fast keyed-hash base are trusted", "schedules are sampled"],
 )
